@@ -269,12 +269,13 @@ PROPS = {
                                           "trylock_empty_name", "lock_empty_name", "trylock_invalid_size", "lock_invalid_size", "trylock_size_mismatch",
                                           "lock_size_mismatch", "default_size_is_one", "default_size_is_one_lock", "renew_nonpositive",
                                           "zero_or_absent_lock_timeout_means_none", "zero_or_absent_wait_timeout_means_none", "invalid_size_inert",
-                                          "trylock_size_mismatch_sharded", "guards_pinned", "default_size_pinned", "lease_units_pinned", "arm_guards_pinned")]
-                 + ["Ldlm.Core.shardedOps_lawful"],
+                                          "trylock_size_mismatch_sharded", "guards_pinned", "default_size_pinned", "lease_units_pinned", "arm_guards_pinned",
+                                          "shard_count_invisible", "sharded_equals_flat")]
+                 + ["Ldlm.Core.shardedOps_lawful", "Ldlm.Core.flatOps_lawful", "Ldlm.Core.normP_step", "Ldlm.Core.repr_independent"],
         streams=[SEQ],
-        level_text="One decision lemma per rule (size <= 0, mismatch, default 1, empty name, negative lock/wait timeout, non-positive renew timeout, 0/absent = none, and their order), each proved for EVERY state and for every lawful lock-table representation, hence for manager.go's sharded table with any hash and any shard count; comparisons, constants, units and their source order are pinned by lemmas over facts regenerated from the source on every run. 'All other lock behaviour identical for every number of shards' is covered by genericity of every M2 theorem in the representation, and checked on the code by replaying every generated history under shard counts 0, 1, 2, 16, 1000 (implementation against implementation).",
-        level_note="The response-stream equality between two shard counts is not yet a standalone simulation theorem (step_sim, planned); it is implied per-theorem by genericity and checked on the implementation by replay. Trusted: Lean kernel, facts extractor, hand-written M2, the differential tie.",
-        technique="Lean 4 decision lemmas generic in the table representation + regenerated source facts + 5-shard-count replay",
+        level_text="One decision lemma per rule (size <= 0, mismatch, default 1, empty name, negative lock/wait timeout, non-positive renew timeout, 0/absent = none, and their order), each proved for EVERY state and for every lawful lock-table representation, hence for manager.go's sharded table with any hash and any shard count; comparisons, constants, units and their source order are pinned by lemmas over facts regenerated from the source on every run. 'All other lock behaviour identical for every number of shards' is a theorem: for EVERY history of M2 (requests, time, GC, restarts, admin unlock, cancellation) any two lawful representations - any shard counts and hash functions, and the flat map - give identical answers, events and tie flags and final states equal up to the representation (repr_independent: every lawful representation simulates the functional table name -> record step by step, normP_step). Checked on the code by replaying every generated history under shard counts 0, 1, 2, 16, 1000 (implementation against implementation).",
+        level_note="manager.go's shard selection (FNV-32 mod n, at least one shard) is an instance of shardedOps with a concrete hash; that the code's sharded map obeys the three map laws is what shardedOps_lawful proves of the model and the shard replay checks of the code. Trusted: Lean kernel, facts extractor, hand-written M2, the differential tie.",
+        technique="Lean 4 proof (decision lemmas generic in the table representation; step-by-step simulation of the functional table by every lawful representation) + regenerated source facts + 5-shard-count replay",
         trusted=M2_TRUST,
     ),
     "C14": dict(
